@@ -49,6 +49,7 @@ pub struct Shadow {
 }
 
 pub struct Snapshot {
+    pub af: Option<::whirlpool::state::AdaptiveFeeInfo>,
     pub ticks: Vec<(i32, Tick)>,
     pub wp: Whirlpool,
     pub positions: BTreeMap<u32, Position>,
@@ -56,7 +57,7 @@ pub struct Snapshot {
 }
 
 pub fn snapshot(w: &World) -> Snapshot {
-    Snapshot { ticks: w.all_ticks(), wp: w.wp(), positions: w.positions.keys().map(|k| (*k, w.pos(*k).unwrap())).collect(), now: w.now }
+    Snapshot { af: w.af.clone(), ticks: w.all_ticks(), wp: w.wp(), positions: w.positions.keys().map(|k| (*k, w.pos(*k).unwrap())).collect(), now: w.now }
 }
 
 fn scale() -> BigUint {
@@ -255,8 +256,135 @@ fn c10_traversal(w: &World, dir: bool, pre: &Snapshot, ctx: &mut Ctx) {
 const MIN_TICK_I: i32 = -443636;
 const MAX_TICK_I: i32 = 443636;
 
+/// C14: independent re-computation of the adaptive-fee schedule from the pre-swap oracle state.
+fn c14_adaptive(w: &World, dir: bool, pre: &Snapshot, ctx: &mut Ctx) {
+    let info = match &pre.af {
+        Some(i) => i.clone(),
+        None => {
+            // static pool: every step charged the static rate
+            let fr = pre.wp.fee_rate as u32;
+            for s in &w.last_trace {
+                if s.fee_rate != fr {
+                    ctx.viol(format!("C14 a static-fee pool charged rate {} in a step, static rate {}", s.fee_rate, fr));
+                }
+            }
+            return;
+        }
+    };
+    let c = info.constants;
+    let v0 = info.variables;
+    let now = w.now;
+    let gs = c.tick_group_size as i64;
+    let maxacc = c.max_volatility_accumulator as u128;
+    let static_rate = pre.wp.fee_rate as u128;
+    // reference after `update_reference` at the start of the swap (filter / decay / reset-after-3600s)
+    let g0 = (pre.wp.tick_current_index as i64).div_euclid(gs);
+    let max_ts = v0.last_reference_update_timestamp.max(v0.last_major_swap_timestamp);
+    let (mut gref, mut vref, mut last_ref) = (v0.tick_group_index_reference as i64, v0.volatility_reference as u128, v0.last_reference_update_timestamp);
+    if now - v0.last_reference_update_timestamp > 3600 {
+        gref = g0;
+        vref = 0;
+        last_ref = now;
+    } else {
+        let elapsed = now - max_ts;
+        if elapsed < c.filter_period as u64 {
+        } else if elapsed < c.decay_period as u64 {
+            gref = g0;
+            vref = (v0.volatility_accumulator as u128) * (c.reduction_factor as u128) / 10000;
+            last_ref = now;
+        } else {
+            gref = g0;
+            vref = 0;
+            last_ref = now;
+        }
+    }
+    let acc_of = |g: i64| -> u128 { (vref + (gref - g).unsigned_abs() as u128 * 10000).min(maxacc) };
+    let rate_of = |g: i64| -> u128 {
+        let x = acc_of(g) * gs as u128;
+        let num = c.adaptive_fee_control_factor as u128 * x * x;
+        let den = 100_000u128 * 10_000 * 10_000;
+        let adaptive = ((num + den - 1) / den).min(100_000);
+        (static_rate + adaptive).min(100_000)
+    };
+    let price_at = |tick: i64| -> u128 { ::whirlpool::math::sqrt_price_from_tick_index(tick.clamp(MIN_TICK_I as i64, MAX_TICK_I as i64) as i32) };
+    let mut adaptive_steps = 0;
+    for s in &w.last_trace {
+        let rate = s.fee_rate as u128;
+        if rate > 100_000 || rate < static_rate {
+            ctx.viol(format!("C14 step charged rate {} outside [static rate {}, 100000]", rate, static_rate));
+        }
+        let (lo, hi) = (s.sqrt_price_before.min(s.next_price), s.sqrt_price_before.max(s.next_price));
+        let t_lo = ::whirlpool::math::tick_index_from_sqrt_price(&lo) as i64;
+        let t_hi = ::whirlpool::math::tick_index_from_sqrt_price(&hi) as i64;
+        let (g_lo, g_hi) = (t_lo.div_euclid(gs), t_hi.div_euclid(gs));
+        if !s.skipped {
+            // the whole step lies within ONE tick group and is charged that group's rate
+            let ok = (g_lo - 1..=g_hi + 1).any(|g| price_at(g * gs) <= lo && hi <= price_at(g * gs + gs) && rate_of(g) == rate);
+            if !ok {
+                ctx.viol(format!(
+                    "C14 step over prices [{}, {}] (tick groups {}..{}, reference group {}, reference volatility {}) charged rate {}, schedule says {:?}",
+                    lo, hi, g_lo, g_hi, gref, vref, rate, (g_lo..=g_hi).map(|g| rate_of(g)).collect::<Vec<_>>()
+                ));
+            }
+            if rate != static_rate {
+                adaptive_steps += 1;
+            }
+        } else {
+            // skipped range: the rate cannot change inside it; it must be the rate of every group touched
+            let ok = (g_lo - 1..=g_hi + 1).any(|g| rate_of(g) == rate) && (g_lo + 1..g_hi).all(|g| rate_of(g) == rate || s.liquidity == 0);
+            if !ok {
+                ctx.viol(format!("C14 skipped step over tick groups {}..{} charged rate {}, schedule says {:?}", g_lo, g_hi, rate, (g_lo..=g_hi).take(8).map(|g| rate_of(g)).collect::<Vec<_>>()));
+            }
+        }
+    }
+    if adaptive_steps > 0 {
+        ctx.tag("c14_adaptive_rate_steps");
+    }
+    // stored variables after the swap
+    let v1 = match &w.af {
+        Some(i) => i.variables,
+        None => {
+            ctx.viol("C14 adaptive fee info disappeared".to_string());
+            return;
+        }
+    };
+    let (v1_acc, v1_ref, v1_gref, v1_last_ref, v1_major) = (v1.volatility_accumulator as u128, v1.volatility_reference as u128, v1.tick_group_index_reference as i64, v1.last_reference_update_timestamp, v1.last_major_swap_timestamp);
+    if v1_acc > maxacc || v1_ref > maxacc {
+        ctx.viol(format!("C14 stored volatility accumulator {} / reference {} exceed the maximum {}", v1_acc, v1_ref, maxacc));
+    }
+    if w.last_trace.is_empty() {
+        return;
+    }
+    if v1_ref != vref || v1_gref != gref || v1_last_ref != last_ref {
+        ctx.viol(format!("C14 stored reference (group {}, volatility {}, updated {}) differs from the filter/decay/reset rules ({}, {}, {})", v1_gref, v1_ref, v1_last_ref, gref, vref, last_ref));
+    }
+    let post = w.wp();
+    let g_end = (::whirlpool::math::tick_index_from_sqrt_price(&{ post.sqrt_price }) as i64).div_euclid(gs);
+    let adj = if dir { g_end - 1 } else { g_end + 1 };
+    let g_end_cur = (post.tick_current_index as i64).div_euclid(gs);
+    // a price exactly on a group boundary is the end of BOTH neighbouring groups' closed price ranges
+    let mut cands = vec![g_end, adj, g_end_cur];
+    if post.sqrt_price == price_at(g_end * gs) {
+        cands.push(g_end - 1);
+    }
+    if !cands.iter().any(|g| acc_of(*g) == v1_acc) {
+        ctx.viol(format!("C14 stored accumulator {} is not the accumulator of the tick group where the swap ended ({} -> {}) or of the adjacent group in trade direction ({})", v1_acc, g_end, acc_of(g_end), acc_of(adj)));
+    }
+    // major swap timestamp
+    let (plo, phi) = ({ pre.wp.sqrt_price }.min(post.sqrt_price), { pre.wp.sqrt_price }.max(post.sqrt_price));
+    let factor = ::whirlpool::math::sqrt_price_from_tick_index(c.major_swap_threshold_ticks as i32);
+    let target = (BigUint::from(plo) * BigUint::from(factor)) >> 64usize;
+    let is_major = BigUint::from(phi) >= target;
+    let want_major = if is_major { now } else { v0.last_major_swap_timestamp };
+    if v1_major != want_major {
+        ctx.viol(format!("C14 last_major_swap_timestamp is {} but the price moved {} -> {} (threshold {} ticks, major = {}), expected {}", v1_major, { pre.wp.sqrt_price }, { post.sqrt_price }, { c.major_swap_threshold_ticks }, is_major, want_major));
+    }
+    ctx.tag(if is_major { "c14_major_swap" } else { "c14_minor_swap" });
+}
+
 fn swap_oracles(w: &mut World, t: &[&str], pre: &Snapshot, ctx: &mut Ctx) {
     c10_traversal(w, t[5] == "1", pre, ctx);
+    c14_adaptive(w, t[5] == "1", pre, ctx);
     let amount: u64 = t[2].parse().unwrap();
     let limit: u128 = t[3].parse().unwrap();
     let ein = t[4] == "1";
